@@ -1,1 +1,180 @@
+/* Contracts + harnesses of unit dns_cache_ttl (property C19, last sentence: "an answer is served from the cache ... never after
+ * the smallest record TTL - or the negative-caching TTL - has elapsed"; RFC 1035 3.2.1 TTL, RFC 2308 5 negative TTL). */
 
+#define RESULT_FRESH \
+__CPROVER_requires(__CPROVER_is_fresh(result, sizeof(*result))) \
+__CPROVER_requires(result->answers.n <= RVEC_MAX && __CPROVER_is_fresh(result->answers.p, result->answers.n * sizeof(DnsRec))) \
+__CPROVER_requires(result->authority.n <= RVEC_MAX && __CPROVER_is_fresh(result->authority.p, result->authority.n * sizeof(DnsRec))) \
+__CPROVER_requires(result->additional.n <= RVEC_MAX && __CPROVER_is_fresh(result->additional.p, result->additional.n * sizeof(DnsRec))) \
+__CPROVER_requires(result->a_records.n <= RVEC_MAX && __CPROVER_is_fresh(result->a_records.p, result->a_records.n * sizeof(DnsRec))) \
+__CPROVER_requires(result->aaaa_records.n <= RVEC_MAX && __CPROVER_is_fresh(result->aaaa_records.p, result->aaaa_records.n * sizeof(DnsRec))) \
+__CPROVER_requires(result->srv_records.n <= RVEC_MAX && __CPROVER_is_fresh(result->srv_records.p, result->srv_records.n * sizeof(DnsRec))) \
+__CPROVER_requires(result->naptr_records.n <= RVEC_MAX && __CPROVER_is_fresh(result->naptr_records.p, result->naptr_records.n * sizeof(DnsRec))) \
+__CPROVER_requires(result->cname_records.n <= RVEC_MAX && __CPROVER_is_fresh(result->cname_records.p, result->cname_records.n * sizeof(DnsRec))) \
+__CPROVER_requires(result->mx_records.n <= RVEC_MAX && __CPROVER_is_fresh(result->mx_records.p, result->mx_records.n * sizeof(DnsRec))) \
+__CPROVER_requires(result->txt_records.n <= RVEC_MAX && __CPROVER_is_fresh(result->txt_records.p, result->txt_records.n * sizeof(DnsRec))) \
+__CPROVER_requires(result->ptr_records.n <= RVEC_MAX && __CPROVER_is_fresh(result->ptr_records.p, result->ptr_records.n * sizeof(DnsRec))) \
+__CPROVER_requires(result->soa_records.n <= RVEC_MAX && __CPROVER_is_fresh(result->soa_records.p, result->soa_records.n * sizeof(DnsRec)))
+/* the configured default TTL is a second count that fits the 32-bit TTL type it is cast to */
+#define SELF_OK (self->defaultTtlSeconds_ >= 0 && self->defaultTtlSeconds_ <= (int64_t)0xFFFFFFFF)
+
+/* ------------------------------------------------------------------------------------------------------------------
+ * calculateResultTtl: for the ARBITRARY witness record (section GSEC, index GI) the result is <= its TTL, i.e. the result
+ * is <= the TTL of every record of every section: no record can outlive the cached entry. */
+uint32_t calculateResultTtl_contract(const DnsCache *self, const DnsResult *result)
+__CPROVER_requires(IORA_TRUE && __CPROVER_is_fresh(self, sizeof(*self)) && SELF_OK)
+RESULT_FRESH
+__CPROVER_assigns()
+/* T1.0 */ __CPROVER_ensures((GSEC == 0 && GI < result->answers.n) ==> __CPROVER_return_value <= result->answers.p[GI].ttl)
+/* T1.1 */ __CPROVER_ensures((GSEC == 1 && GI < result->authority.n) ==> __CPROVER_return_value <= result->authority.p[GI].ttl)
+/* T1.2 */ __CPROVER_ensures((GSEC == 2 && GI < result->additional.n) ==> __CPROVER_return_value <= result->additional.p[GI].ttl)
+/* T1.3 */ __CPROVER_ensures((GSEC == 3 && GI < result->a_records.n) ==> __CPROVER_return_value <= result->a_records.p[GI].ttl)
+/* T1.4 */ __CPROVER_ensures((GSEC == 4 && GI < result->aaaa_records.n) ==> __CPROVER_return_value <= result->aaaa_records.p[GI].ttl)
+/* T1.5 */ __CPROVER_ensures((GSEC == 5 && GI < result->srv_records.n) ==> __CPROVER_return_value <= result->srv_records.p[GI].ttl)
+/* T1.6 */ __CPROVER_ensures((GSEC == 6 && GI < result->naptr_records.n) ==> __CPROVER_return_value <= result->naptr_records.p[GI].ttl)
+/* T1.7 */ __CPROVER_ensures((GSEC == 7 && GI < result->cname_records.n) ==> __CPROVER_return_value <= result->cname_records.p[GI].ttl)
+/* T1.8 */ __CPROVER_ensures((GSEC == 8 && GI < result->mx_records.n) ==> __CPROVER_return_value <= result->mx_records.p[GI].ttl)
+/* T1.9 */ __CPROVER_ensures((GSEC == 9 && GI < result->txt_records.n) ==> __CPROVER_return_value <= result->txt_records.p[GI].ttl)
+/* T1.10 */ __CPROVER_ensures((GSEC == 10 && GI < result->ptr_records.n) ==> __CPROVER_return_value <= result->ptr_records.p[GI].ttl)
+/* T1.11 */ __CPROVER_ensures((GSEC == 11 && GI < result->soa_records.n) ==> __CPROVER_return_value <= result->soa_records.p[GI].ttl)
+/* T2 no record at all: the configured default */
+__CPROVER_ensures((result->answers.n == 0 && result->authority.n == 0 && result->additional.n == 0 && result->a_records.n == 0 && result->aaaa_records.n == 0 && result->srv_records.n == 0 && result->naptr_records.n == 0 && result->cname_records.n == 0 && result->mx_records.n == 0 && result->txt_records.n == 0 && result->ptr_records.n == 0 && result->soa_records.n == 0) ==> __CPROVER_return_value == (uint32_t)self->defaultTtlSeconds_)
+/* T3 a single answer record and nothing else: exactly its TTL (unless that is the 2^32-1 sentinel) */
+__CPROVER_ensures((result->answers.n == 1 && result->authority.n == 0 && result->additional.n == 0 && result->a_records.n == 0 && result->aaaa_records.n == 0 && result->srv_records.n == 0 && result->naptr_records.n == 0 && result->cname_records.n == 0 && result->mx_records.n == 0 && result->txt_records.n == 0 && result->ptr_records.n == 0 && result->soa_records.n == 0 && result->answers.p[0].ttl != 0xFFFFFFFFu) ==> __CPROVER_return_value == result->answers.p[0].ttl)
+;
+
+void h_ttl(void)
+{
+  const DnsCache *self; const DnsResult *result;
+  uint32_t r = DnsCache_calculateResultTtl(self, result);
+  IORA_CANARY("h_ttl: returns");
+}
+
+/* ------------------------------------------------------------------------------------------------------------------
+ * calculateNegativeTtl (RFC 2308 5: "the TTL of this record is set from the minimum of the MINIMUM field of the SOA record
+ * and the TTL of the SOA itself") */
+uint32_t calculateNegativeTtl_contract(const DnsCache *self, const DnsResult *result, uint32_t defaultNegativeTtl)
+__CPROVER_requires(IORA_TRUE && __CPROVER_is_fresh(self, sizeof(*self)) && SELF_OK)
+RESULT_FRESH
+__CPROVER_assigns()
+/* N1 */ __CPROVER_ensures(result->soa_records.n > 0 ==> __CPROVER_return_value == IORA_MIN(result->soa_records.p[0].minimum, result->soa_records.p[0].ttl))
+/* N2 no parsed SOA, the authority section starts with an (unparsed) SOA: its TTL */
+__CPROVER_ensures((result->soa_records.n == 0 && result->authority.n > 0 && result->authority.p[0].type == DnsType_SOA) ==> __CPROVER_return_value == result->authority.p[0].ttl)
+/* N3 no SOA anywhere: the caller's default, else the configured default */
+__CPROVER_ensures((result->soa_records.n == 0 && result->authority.n == 0) ==>
+   __CPROVER_return_value == (defaultNegativeTtl > 0 ? defaultNegativeTtl : (uint32_t)self->defaultTtlSeconds_))
+;
+
+void h_negttl(void)
+{
+  const DnsCache *self; const DnsResult *result; uint32_t d;
+  uint32_t r = DnsCache_calculateNegativeTtl(self, result, d);
+  IORA_CANARY("h_negttl: returns");
+}
+
+/* ------------------------------------------------------------------------------------------------------------------
+ * ExpiringCache::set / get over integer time points: loop-free -> plain harnesses, full domain.
+ * API contract of set (its own documentation): customTtl == 0 means "use the cache's default TTL". */
+#define TIME_OK(t) ((t) >= -((int64_t)1 << 61) && (t) <= ((int64_t)1 << 61))      /* steady_clock counts are far from the int64 limits */
+#define TTL_OK(t) ((t) >= 0 && (t) <= ((int64_t)1 << 40))
+
+void h_set(void)
+{
+  ExpiringCache c; uint64_t key = nondet_u64(), value = nondet_u64(); iora_secs ttl = nondet_i64();
+  GKEY = nondet_u64(); G_now = nondet_i64(); IORA_TRUE = 1;
+  __CPROVER_assume(TIME_OK(G_now) && TTL_OK(ttl) && TTL_OK(c._ttl));
+  const iora_tmap before = c._cache;
+  ExpiringCache_set(&c, key, value, ttl);
+  IORA_CANARY("h_set: returns");
+  __CPROVER_assert(key == GKEY ==> (c._cache.has && c._cache.e.value == value), "E1 set stores the value under the key");
+  __CPROVER_assert((key == GKEY && ttl > 0) ==> c._cache.e.expiration == G_now + ttl, "E2 an explicit TTL: the entry expires exactly TTL after now");
+  __CPROVER_assert((key == GKEY && ttl == 0) ==> c._cache.e.expiration == G_now + c._ttl, "E3 TTL 0 = not given: the cache's default TTL");
+  __CPROVER_assert(key != GKEY ==> (c._cache.has == before.has && c._cache.e.value == before.e.value && c._cache.e.expiration == before.e.expiration), "E4 entries of other keys untouched");
+}
+
+void h_get(void)
+{
+  ExpiringCache c; uint64_t key = nondet_u64(); uint64_t out = nondet_u64();
+  GKEY = nondet_u64(); G_now = nondet_i64(); IORA_TRUE = 1; G_evictions = 0;
+  const iora_tmap before = c._cache; const uint64_t out0 = out;
+  bool hit = ExpiringCache_get(&c, key, &out);
+  IORA_CANARY("h_get: returns");
+  if (hit) { IORA_CANARY("h_get: hit"); } else { IORA_CANARY("h_get: miss"); }
+  /* the property's clause: an entry is served only strictly before its expiry instant */
+  __CPROVER_assert((key == GKEY && hit) ==> (before.has && G_now < before.e.expiration && out == before.e.value), "G1 a hit returns the stored value and only before the expiry instant");
+  __CPROVER_assert((key == GKEY && before.has && G_now < before.e.expiration) ==> hit, "G2 an unexpired entry is a hit");
+  __CPROVER_assert((key == GKEY && before.has && G_now >= before.e.expiration) ==> (!hit && !c._cache.has), "G3 an expired entry is a miss and is removed");
+  __CPROVER_assert((key == GKEY && before.has && G_now >= before.e.expiration) ==> (G_evictions == (c._evictionCallback ? 1 : 0) && (!c._evictionCallback || G_evicted_key == key)), "G4 the eviction callback fires exactly once for the removed entry");
+  __CPROVER_assert((key == GKEY && hit) ==> (c._cache.has && G_evictions == 0), "G5 a hit changes nothing");
+  __CPROVER_assert(key != GKEY ==> (c._cache.has == before.has && c._cache.e.value == before.e.value && c._cache.e.expiration == before.e.expiration), "G6 entries of other keys untouched");
+  __CPROVER_assert(!hit ==> out == out0, "G7 a miss returns no value");
+}
+
+/* lemma: set then get after time has passed (the clock is monotone) */
+void h_set_get(void)
+{
+  ExpiringCache c; uint64_t key = nondet_u64(), value = nondet_u64(); iora_secs ttl = nondet_i64(); uint64_t out = 0;
+  GKEY = key; G_now = nondet_i64(); IORA_TRUE = 1;
+  __CPROVER_assume(TIME_OK(G_now) && ttl > 0 && TTL_OK(ttl) && TTL_OK(c._ttl));
+  const int64_t t0 = G_now;
+  ExpiringCache_set(&c, key, value, ttl);
+  int64_t dt = nondet_i64();
+  __CPROVER_assume(dt >= 0 && dt <= ((int64_t)1 << 61));
+  G_now = t0 + dt;
+  bool hit = ExpiringCache_get(&c, key, &out);
+  IORA_CANARY("h_set_get: returns");
+  __CPROVER_assert(hit == (dt < ttl), "L1 an entry stored with TTL > 0 is served exactly while less than TTL has elapsed");
+  __CPROVER_assert(hit ==> out == value, "L2 and it is the stored value");
+}
+
+/* ------------------------------------------------------------------------------------------------------------------
+ * DnsCache::put, the TTL hand-over (block target: `ttl = calculateResultTtl(result); ... cache_->set(key, cachedResult, seconds(ttl));`)
+ * calculateResultTtl replaced by its contract above, ExpiringCache::set inlined (extracted text).
+ * P1: the entry written for the key expires no later than now + TTL of the ARBITRARY witness record of the cached result.
+ *     FAILS on the unchanged tree (finding D3): a minimum TTL of 0 is handed to set(), where 0 means "default TTL". */
+void put_core_contract(DnsCache *self, uint64_t key, const DnsResult *result)
+__CPROVER_requires(IORA_TRUE && __CPROVER_is_fresh(self, sizeof(*self)) && SELF_OK && __CPROVER_is_fresh(self->cache_, sizeof(*self->cache_)))
+__CPROVER_requires(TIME_OK(G_now) && TTL_OK(self->cache_->_ttl))
+RESULT_FRESH
+__CPROVER_assigns(self->cache_->_cache)
+/* P1.0 */ __CPROVER_ensures((key == GKEY && GSEC == 0 && GI < result->answers.n) ==> (self->cache_->_cache.has && self->cache_->_cache.e.expiration <= G_now + (int64_t)result->answers.p[GI].ttl))
+/* P1.1 */ __CPROVER_ensures((key == GKEY && GSEC == 1 && GI < result->authority.n) ==> (self->cache_->_cache.has && self->cache_->_cache.e.expiration <= G_now + (int64_t)result->authority.p[GI].ttl))
+/* P1.2 */ __CPROVER_ensures((key == GKEY && GSEC == 2 && GI < result->additional.n) ==> (self->cache_->_cache.has && self->cache_->_cache.e.expiration <= G_now + (int64_t)result->additional.p[GI].ttl))
+/* P1.3 */ __CPROVER_ensures((key == GKEY && GSEC == 3 && GI < result->a_records.n) ==> (self->cache_->_cache.has && self->cache_->_cache.e.expiration <= G_now + (int64_t)result->a_records.p[GI].ttl))
+/* P1.4 */ __CPROVER_ensures((key == GKEY && GSEC == 4 && GI < result->aaaa_records.n) ==> (self->cache_->_cache.has && self->cache_->_cache.e.expiration <= G_now + (int64_t)result->aaaa_records.p[GI].ttl))
+/* P1.5 */ __CPROVER_ensures((key == GKEY && GSEC == 5 && GI < result->srv_records.n) ==> (self->cache_->_cache.has && self->cache_->_cache.e.expiration <= G_now + (int64_t)result->srv_records.p[GI].ttl))
+/* P1.6 */ __CPROVER_ensures((key == GKEY && GSEC == 6 && GI < result->naptr_records.n) ==> (self->cache_->_cache.has && self->cache_->_cache.e.expiration <= G_now + (int64_t)result->naptr_records.p[GI].ttl))
+/* P1.7 */ __CPROVER_ensures((key == GKEY && GSEC == 7 && GI < result->cname_records.n) ==> (self->cache_->_cache.has && self->cache_->_cache.e.expiration <= G_now + (int64_t)result->cname_records.p[GI].ttl))
+/* P1.8 */ __CPROVER_ensures((key == GKEY && GSEC == 8 && GI < result->mx_records.n) ==> (self->cache_->_cache.has && self->cache_->_cache.e.expiration <= G_now + (int64_t)result->mx_records.p[GI].ttl))
+/* P1.9 */ __CPROVER_ensures((key == GKEY && GSEC == 9 && GI < result->txt_records.n) ==> (self->cache_->_cache.has && self->cache_->_cache.e.expiration <= G_now + (int64_t)result->txt_records.p[GI].ttl))
+/* P1.10 */ __CPROVER_ensures((key == GKEY && GSEC == 10 && GI < result->ptr_records.n) ==> (self->cache_->_cache.has && self->cache_->_cache.e.expiration <= G_now + (int64_t)result->ptr_records.p[GI].ttl))
+/* P1.11 */ __CPROVER_ensures((key == GKEY && GSEC == 11 && GI < result->soa_records.n) ==> (self->cache_->_cache.has && self->cache_->_cache.e.expiration <= G_now + (int64_t)result->soa_records.p[GI].ttl))
+/* P2 the entry holds this result */
+__CPROVER_ensures((key == GKEY && self->cache_->_cache.has) ==> self->cache_->_cache.e.value == G_result_id)
+;
+
+void h_put(void)
+{
+  DnsCache *self; uint64_t key; const DnsResult *result;
+  DnsCache_put_core(self, key, result);
+  IORA_CANARY("h_put: returns");
+}
+
+#ifdef IORA_SEARCH
+/* SEARCH: one answer record with TTL IN_TTL is put at time 0; get at time IN_DT (bounded only by the concrete shapes) */
+void h_search(void)
+{
+  uint32_t IN_TTL = (uint32_t)nondet_u64(); int64_t IN_DT = nondet_i64();
+  __CPROVER_assume(IN_DT >= 0 && IN_DT <= 1000000);
+  DnsRec rec = { DnsType_A, IN_TTL, 0 };
+  DnsResult res = { {&rec, 1}, {0,0},{0,0},{0,0},{0,0},{0,0},{0,0},{0,0},{0,0},{0,0},{0,0},{0,0} };
+  ExpiringCache ec = { {false, {0, 0}}, 300, false };
+  DnsCache dc = { 300, &ec };
+  IORA_TRUE = 1; GKEY = 7; G_now = 0; G_result_id = 42; GSEC = 0; GI = 0;
+  DnsCache_put_core(&dc, 7, &res);
+  G_now = IN_DT;
+  uint64_t out = 0;
+  bool hit = ExpiringCache_get(&ec, 7, &out);
+  __CPROVER_assert(!hit || IN_DT < (int64_t)IN_TTL, "P1 served only while less than the record TTL has elapsed");
+}
+#endif
